@@ -122,12 +122,14 @@ def closure_problems(sk, prefix, pt):
 
 def number_problems(bad):
     out = []
-    for tag, attr, val in bad:
-        toks = set(re.split(r"[ ()]", val))
+    for tag, attr, val, tok in bad:
+        toks = {tok}
         cls = None
         if tag.startswith('fe') and (toks & {'inf', '-inf', 'NaN'}):
             cls = 'nonfinite-filter-number'
-        out.append((cls, "<%s %s=\"%s\"> is not a plain finite decimal" % (tag, attr, val[:60])))
+        elif attr in ('transform', 'gradientTransform', 'patternTransform') and (toks & {'inf', '-inf', 'NaN'}):
+            cls = 'nonfinite-transform'
+        out.append((cls, "<%s %s=\"%s\">: %s is not a plain finite decimal" % (tag, attr, val[:60], tok)))
     return out
 
 
@@ -211,5 +213,442 @@ class CoqSkel:
         return 'XE %s %s [%s]' % (ct, a, '; '.join(sub))
 
 
+# ------------------------------------------------------------------------------------------------
+# classification of one written document
+# ------------------------------------------------------------------------------------------------
+URL_BREAKERS = set('"\'() ')
+XML_BREAKERS = set('&<')
+
+
+def tree_strings(d):
+    """ids and filter result names of a dumped tree (everything the writer emits as a raw attribute string)"""
+    out = []
+    w = treeref.Walk(d)
+    for n, _ in w.nodes:
+        out.append(n['id'])
+    for k, ptr, i, ctx, via in w.defs:
+        out.append(i)
+    for c in ('filters',):
+        for f in d[c]:
+            for p in f['primitives']:
+                out.append(p['result'])
+                for i in treeref.prim_inputs(p['kind']):
+                    if isinstance(i, dict):
+                        out.append(i['ref'])
+    return out
+
+
+def nested_def_ids(d):
+    """ids of definitions that are only reachable through a nested SVG image (they belong to that image's tree)"""
+    w = treeref.Walk(d)
+    ctxs = {}
+    for k, ptr, i, ctx, via in w.defs:
+        ctxs.setdefault((k, ptr, i), []).append(ctx)
+    out = set(i for (k, ptr, i), cs in ctxs.items() if all('image' in c for c in cs))
+    # ... and ids of the elements inside the nested image's tree (they are written as content of those definitions)
+    out |= set(n['id'] for n, ctx in w.nodes if n['id'] and 'image' in ctx)
+    return out
+
+
+def feimage_clones(d):
+    """ids carried by the first child of more than one feImage root (the writer writes only the first of them)"""
+    seen = {}
+    for f in d['filters']:
+        for p in f['primitives']:
+            if p['kind']['k'] == 'Image' and p['kind']['root']['children']:
+                i = p['kind']['root']['children'][0]['id']
+                if i:
+                    seen[i] = seen.get(i, 0) + 1
+    return [i for i, n in seen.items() if n > 1]
+
+
+def has_empty_definition(d):
+    return any(not c['root']['children'] for c in d['clip_paths']) or any(not m['root']['children'] for m in d['masks'])
+
+
+def classify(r, w):
+    """r = result of c07-write, w = write options.  -> list of (class or None, text)"""
+    out = []
+    prefix = w.get('prefix') or ''
+    pt = bool(w.get('pt'))
+    d = r['dump']
+    if r['xml'] is not None:
+        strs = tree_strings(d) + [prefix]
+        cls = 'unescaped-xml-char' if any(set(s) & XML_BREAKERS for s in strs) else None
+        out.append((cls, "the written text is not well-formed XML: %s" % r['xml']))
+        return out
+    if r['root'] != ['svg', 'http://www.w3.org/2000/svg']:
+        out.append((None, "root element is %r" % (r['root'],)))
+    cp = closure_problems(r['skeleton'], prefix, pt)
+    nested = None
+    for cls, text in cp:
+        if cls is None:
+            if nested is None:
+                nested = nested_def_ids(d)
+            m = re.search(r'#(.*)" on <', text, re.S)
+            if m and m.group(1)[len(prefix):] in nested and 'resolves to 0' not in text:
+                cls = 'nested-image-defs'
+        out.append((cls, text))
+    out += number_problems(r['bad_numbers'])
+    if r['reparse'] is not None:
+        out.append((None, "the written text does not parse again: %s" % r['reparse']))
+    elif r['size_a'] != r['size_b'] and min(w.get('cp', 8), w.get('tp', 8)) >= 5:
+        # (low precisions are documented to be lossy: the size is only compared from 5 digits on)
+        a, b = r['size_a'], r['size_b']
+        known_here = [c for c, _ in out if c is not None]
+        a2 = list(a)
+        if a[2] >= 1 and b[2] == a[2]:
+            a2[0] += a[2]                  # image-wrapper-group: one more group per image
+        empty_def = []
+
+        def find_empty(e, parent):
+            if e[0] in ('clipPath', 'mask') and not e[2]:
+                empty_def.append(e[0])
+        sk_walk(r['skeleton'], find_empty)
+        cls = None
+        if known_here:
+            cls = known_here[0]            # same root cause: lost / merged definitions
+        elif b == a2:
+            cls = 'image-wrapper-group'
+        elif b[:4] == a2[:4] and any(n['t'] == 'image' and n.get('svg') for n, _ in treeref.Walk(d).nodes):
+            # only the definition counts differ and the tree holds a nested SVG image: the outer collections
+            # contain the nested tree's definitions (F41), whose own round trip need not keep their number
+            cls = 'nested-image-defs'
+        elif b[:4] == a2[:4] and all(y <= x for x, y in zip(a2, b)) and feimage_clones(d):
+            # several feImage sub-trees for one target (clones resolved against different boxes); only the first is
+            # written, the definitions used by the others are written but no longer referenced
+            cls = 'feimage-clone-merged'
+        elif empty_def and all(y <= x for x, y in zip(a2, b)):
+            cls = 'empty-definition-dropped'
+        elif set(prefix) & URL_BREAKERS and all(y <= x for x, y in zip(a2, b)):
+            cls = 'prefix-breaks-url'
+        out.append((cls, "the re-parsed tree has another size: groups/paths/images/texts/lg/rg/pattern/clip/mask/filter %s -> %s" % (a, b)))
+    return out
+
+
+# ------------------------------------------------------------------------------------------------
+# write-num cases
+# ------------------------------------------------------------------------------------------------
+def f32(x):
+    import struct
+    return struct.unpack('f', struct.pack('f', x))[0]
+
+
+def gen_num_cases(rng, n):
+    vals = [1.5, 2.25, 7.125, 0.1, 1.0 / 3, 123.456, 0.001234, 99999.9, 3000000000.0, -3000000000.0, 2147483648.0,
+            -2147483648.0, 2147483520.0, 16777216.0, 8388607.5, -0.5, 0.5, 1e-7, 4194303.75, 1e20, -1e20, 65535.996]
+    out = []
+    for _ in range(n):
+        r = rng.below(5)
+        if r == 0:
+            x = rng.choice(vals)
+        elif r == 1:
+            x = rng.uniform(-1000, 1000)
+        elif r == 2:
+            x = rng.uniform(-1, 1) * 10 ** rng.below(7)
+        elif r == 3:
+            x = (rng.below(1 << 20) - (1 << 19)) / float(1 << rng.below(12))
+        else:
+            x = float(rng.below(1 << 31)) * rng.choice([1, -1, 3])
+        x = f32(x)
+        if x != x or x in (float('inf'), float('-inf')):
+            x = 1.5
+        out.append(x)
+    return out
+
+
+NUM_DEFS = """
+Local Open Scope Q_scope.
+Definition near_tie (x : Q) (pw : Z) : bool :=
+  let y := x * inject_Z pw in
+  Qle_bool (Qabs' (y - inject_Z (Qfloor y) - (1 # 2))) (Qabs' y * (1 # 4194304)).
+(* real output within f32 rounding of the model's exact result; one unit of the last written digit more when the
+   f32 product num * pow lies within rounding error of a tie *)
+Definition num_ok (c : Z * Q * Q) : bool :=
+  match c with
+  | (p, x, real) =>
+      match write_num p x, nth_error pow_vec (Z.to_nat (pow_index p)) with
+      | WOk v, Some pw =>
+          Qle_bool (Qabs' (real - v))
+                   (Qabs' x * (4 # 10000000) + (if near_tie x pw then 1 / inject_Z pw else 0))
+      | _, _ => false
+      end
+  end.
+"""
+
+
 def run(ctx):
-    raise NotImplementedError
+    rng = ctx.rng
+    quick = ctx.tier == 'quick'
+    ctx.cov['trusted_base'] = vlib.BASE_TRUSTED + [
+        "xmlwriter (escaping, quoting, indentation), base64, Rust float formatting: outside the model; observed through roxmltree",
+        "roxmltree as the independent XML reader of the oracle; the plain-decimal grammar of harness/src/c07.rs",
+        "Model/Writer.v abstracts the early returns of has_xlink (same disjunction) and keeps only id / reference attributes",
+    ]
+    ctx.assumptions = ["finite numbers: Model/WriteNum.v is over exact rationals, f32 rounding idealised (tie compared within 4e-7 relative)",
+                       "a value with a fractional part is below 2^23 in magnitude (every f32 above is integral)"]
+    broken = ctx.translate()
+    res = ctx.coq_props()
+    proof_ok = res['ok'] and not broken
+    ctx.coq_build(['Model/Corr.v', 'Model/Writer.v', 'Model/WriteNum.v'])      # what the correspondence evaluations import
+    if not quick and hasattr(ctx, 'coqchk') and res['ok']:
+        if not ctx.coqchk():
+            proof_ok = False
+
+    binp, blog = ctx.harness('release')
+    if binp is None:
+        ctx.violation("harness does not build against the current tree (correspondence cannot run)",
+                      dict(build_log=blog[-2000:]), found_input=False)
+        return
+
+    # ------------------------------------------------------------------ inputs x options
+    wit = sorted(os.path.join(WITNESS, f) for f in os.listdir(WITNESS) if f.endswith('.svg'))
+    corpus = vlib.corpus_files()
+    ngen = 200 if quick else 2500
+    gen_docs = [refgen.gen_ref_doc(rng, id_style=['plain', 'genlike', 'weird'][i % 3], big=(i % 5 == 0)) for i in range(ngen)]
+    # hand-made inputs for the known classes and the fixed defects
+    extra = [
+        '<svg %s width="100" height="100"><filter id="f"><feComposite operator="arithmetic" k1="1e40" k2="1" in2="SourceAlpha"/></filter>'
+        '<rect width="50" height="50" filter="url(#f)"/></svg>' % NS,
+        '<svg %s width="10" height="10"><rect id="a&amp;b" width="5" height="5"/></svg>' % NS,
+        '<svg %s width="10" height="10"><path d="M 1.5 2.25 L 7.125 8" stroke="black"/></svg>' % NS,
+    ]
+    docs = ['@' + f for f in wit] + extra + ['@' + f for f in corpus] + gen_docs
+    labels = [os.path.relpath(f, vlib.VERIF) for f in wit] + ['extra#%d' % i for i in range(len(extra))] + \
+             [os.path.relpath(f, vlib.CORPUS) for f in corpus] + ['generated#%d' % i for i in range(ngen)]
+    # witnesses of the defects fixed for this property family must pass outright
+    strict = set(k for k, f in enumerate(wit) if os.path.basename(f) in ('F08.svg', 'F09.svg', 'F13.svg'))
+    nwit = len(wit)
+    per_doc = 2 if quick else 6
+    esc_variants = ['é-ü_', 'q"\'', 'a&<', 'p q', 'x)']
+    cases = []
+    for k, d in enumerate(docs):
+        for j in range(per_doc):
+            w = gen_wopts(rng, k + j)
+            w['pt'] = bool(j % 2)
+            if w['prefix'] == PREFIXES['esc']:
+                w['prefix'] = rng.choice(esc_variants)
+            if k < nwit:
+                # the witnesses of fixed defects run with safe prefixes and with precisions above 12
+                w['prefix'] = [None, 'pre-', 'é-ü_'][(k + j) % 3]
+                w['cp'] = [13, 255, 8, 100][(k + j) % 4]
+            cases.append((k, w))
+    outs = ctx.rvh_batch(binp, 'c07-write', ["-\t%s\t%s" % (wopts_str(w), docs[k]) for k, w in cases])
+
+    # ------------------------------------------------------------------ S: closure / numbers / re-parse oracle
+    hist = dict(written=0, rejected=0, with_refs=0, pt=0, prefix=dict(none=0, ascii=0, esc=0), precision_gt12=0)
+    results = []
+    nviol = 0
+    klass_hits = {}
+    for (k, w), o in zip(cases, outs):
+        r = jload(o)
+        results.append(r)
+        lab = "%s [%s]" % (labels[k], wopts_str(w))
+        if 'crash' in r or 'panic' in r:
+            if nviol < 8:
+                ctx.violation("writing crashed: %s: %s" % (lab, str({x: r[x] for x in r if x != 'dump'})[:300]),
+                              dict(doc=docs[k], wopts=wopts_str(w), op='c07-write', result={x: r[x] for x in r if x != 'dump'}))
+            nviol += 1
+            continue
+        if 'dump' not in r:
+            hist['rejected'] += 1
+            ctx.note_case('rej/' + lab, nontrivial=False)
+            continue
+        hist['written'] += 1
+        hist['pt'] += 1 if w['pt'] else 0
+        pk = 'none' if not w['prefix'] else ('ascii' if w['prefix'] == 'pre-' else 'esc')
+        hist['prefix'][pk] += 1
+        hist['precision_gt12'] += 1 if (w['cp'] > 12 or w['tp'] > 12) else 0
+        nrefs = 0
+        if r.get('skeleton'):
+            cnt = [0]
+
+            def cref(e, parent):
+                at = e[1]
+                cnt[0] += sum(1 for a in ('clip-path', 'mask', 'fill', 'stroke', 'filter') if a in at and at[a].startswith('url('))
+                cnt[0] += 1 if at.get('xlink:href', '').startswith('#') else 0
+            sk_walk(r['skeleton'], cref)
+            nrefs = cnt[0]
+        hist['with_refs'] += 1 if nrefs else 0
+        ctx.note_case("%s|%s" % (labels[k] if docs[k].startswith('@') else docs[k], wopts_str(w)), nontrivial=nrefs > 0)
+        for cls, text in classify(r, w):
+            full = "%s: %s" % (lab, text)
+            rep = dict(doc=docs[k], wopts=wopts_str(w), op='c07-write', problem=text, klass=cls)
+            if cls is None or k in strict:
+                if nviol < 8:
+                    ctx.violation(full, rep)
+                nviol += 1
+            else:
+                klass_hits[cls] = klass_hits.get(cls, 0) + 1
+                ctx.known_or_violation(cls, full, rep)
+    ctx.cov['oracle_cases'] = hist
+    ctx.cov['known_class_hits'] = klass_hits
+    ctx.cov['e2e_cases'] = hist['written']
+
+    # ------------------------------------------------------------------ K: writer-skeleton (in Coq)
+    items = []
+    imap = []
+    for ci, ((k, w), r) in enumerate(zip(cases, results)):
+        if not r.get('skeleton'):
+            continue
+        it = treeref.Intern()
+        ct = treeref.CoqTree(it)
+        tree = ct.tree(r['dump'])
+        sk = CoqSkel(it, w['prefix'])
+        x = sk.elem(r['skeleton'], root=True, xlink=r['xlink_declared'])
+        items.append("(%d, %s, %s, (%s))" % (sk.ptok, 'true' if w['pt'] else 'false', tree, x))
+        imap.append(ci)
+    chunks = 8
+    bad = []
+    model_ok = True
+    import concurrent.futures as cf
+
+    def eval_chunk(c):
+        idx = list(range(c, len(items), chunks))
+        body = (PRELUDE + "Definition case_ok (c : N * bool * tree * xout) : bool :=\n"
+                "  match c with (p, pt, t, x) => xout_eqb (write {| w_prefix := p; w_preserve_text := pt |} t) x end.\n"
+                "Definition cases : list (N * bool * tree * xout) := [\n%s\n].\n"
+                "Eval vm_compute in (bad_indices case_ok cases).\n" % ";\n".join(items[j] for j in idx))
+        rc, out = ctx.coq_eval('k_skel_%d' % c, body, ['Model.Tree', 'Model.Writer', 'Model.Corr'], timeout=1200)
+        return idx, (ctx.parse_N_list(out) if rc == 0 else None), out
+
+    with cf.ThreadPoolExecutor(max_workers=chunks) as ex:
+        for idx, bl, out in ex.map(eval_chunk, range(chunks)):
+            if bl is None:
+                model_ok = False
+                ctx.log("model evaluation (writer-skeleton) failed:\n" + out[-1500:])
+            else:
+                bad += [imap[idx[b]] for b in bl]
+    ctx.cov['correspondence_cases'] = len(items)
+    for ci in sorted(bad)[:4]:
+        k, w = cases[ci]
+        ctx.violation("%s [%s]: the element / id / reference skeleton of the real output differs from Model/Writer.v `write` on the same tree"
+                      % (labels[k], wopts_str(w)),
+                      dict(doc=docs[k], wopts=wopts_str(w), op='c07-write', skeleton=results[ci].get('skeleton')))
+    if not model_ok:
+        ctx.violation("the writer-skeleton correspondence could not be evaluated", dict(op='writer-skeleton'), found_input=False)
+
+    # ------------------------------------------------------------------ K: write-num
+    nn = 400 if quick else 4000
+    xs = gen_num_cases(rng, nn)
+    ncases = []
+    for i in range(0, len(xs) - 3, 4):
+        p = rng.choice([0, 1, 2, 3, 5, 8, 11, 12, 13, 40, 255, rng.below(256)])
+        ncases.append((p, xs[i:i + 4]))
+    ndocs = ['<svg %s width="10" height="10"><path d="M %s %s L %s %s" stroke="black"/></svg>'
+             % ((NS,) + tuple(repr(float(v)) for v in c[1])) for c in ncases]
+    nouts = ctx.rvh_batch(binp, 'c07-write', ["-\t%s\t%s" % (wopts_str(dict(cp=p)), d) for (p, _), d in zip(ncases, ndocs)])
+    nitems = []
+    nmap = []
+    from fractions import Fraction
+    for ci, ((p, vals), d, o) in enumerate(zip(ncases, ndocs, nouts)):
+        r = jload(o)
+        if 'crash' in r or 'panic' in r:
+            ctx.violation("write_num crashed with coordinates_precision=%d: %s" % (p, str({x: r[x] for x in r if x != 'dump'})[:200]),
+                          dict(doc=d, wopts=wopts_str(dict(cp=p)), op='c07-write'))
+            continue
+        m = re.search(r' d=["\']M (\S+) (\S+) L (\S+) (\S+)["\']', r.get('text', ''))
+        if not m:
+            ctx.violation("write-num: path data not found in the output", dict(doc=d, wopts=wopts_str(dict(cp=p)), text=r.get('text', '')[:500]))
+            continue
+        for v, tok in zip(vals, m.groups()):
+            try:
+                real = Fraction(tok)
+            except ValueError:
+                ctx.violation("write_num wrote %r for %r at precision %d" % (tok, v, p), dict(doc=d, wopts=wopts_str(dict(cp=p)), token=tok))
+                continue
+            ctx.note_case("num/%r/%d" % (v, p), nontrivial=(v != int(v)))
+            nitems.append("(%d%%Z, %s, (%d # %d))" % (p, vlib.qstr(v), real.numerator, real.denominator))
+            nmap.append((ci, v, tok))
+    ctx.cov['write_num_cases'] = len(nitems)
+    if nitems:
+        body = ("From Coq Require Import ZArith QArith Qround List Bool.\nImport ListNotations.\n" + NUM_DEFS +
+                "Definition cases : list (Z * Q * Q) := [\n%s\n].\nEval vm_compute in (bad_indices num_ok cases).\n" % ";\n".join(nitems))
+        rc, out = ctx.coq_eval('k_writenum', body, ['Gen.WriterNum', 'Model.WriteNum', 'Model.Corr'])
+        bl = ctx.parse_N_list(out) if rc == 0 else None
+        if bl is None:
+            ctx.log("model evaluation (write-num) failed:\n" + out[-1500:])
+            ctx.violation("the write-num correspondence could not be evaluated", dict(op='write-num'), found_input=False)
+        for b in (bl or [])[:4]:
+            ci, v, tok = nmap[b]
+            ctx.violation("write_num: coordinate %r was written as %s at coordinates_precision=%d; Model/WriteNum.v (source-derived POW_VEC, "
+                          "clamp, integer bound) disagrees" % (v, tok, ncases[ci][0]),
+                          dict(doc=ndocs[ci], wopts=wopts_str(dict(cp=ncases[ci][0])), op='c07-write', value=v, written=tok))
+
+    # ------------------------------------------------------------------ proof broke: model-level search
+    if not proof_ok and not ctx.violations:
+        found = False
+        its = []
+        smap = []
+        for ci, ((k, w), r) in enumerate(zip(cases, results)):
+            if r.get('skeleton') and len(its) < 600:
+                it = treeref.Intern()
+                ct = treeref.CoqTree(it)
+                its.append("(%d, %s, %s)" % (it(w['prefix']) if w['prefix'] else 0, 'true' if w['pt'] else 'false', ct.tree(r['dump'])))
+                smap.append(ci)
+        body = (PRELUDE + "Definition cases : list (N * bool * tree) := [\n%s\n].\n"
+                "Eval vm_compute in (bad_indices (fun c => match c with (p, pt, t) => "
+                "chk_refs_closed (write {| w_prefix := p; w_preserve_text := pt |} t) end) cases).\n" % ";\n".join(its))
+        rc, out = ctx.coq_eval('search_closed', body, ['Model.Tree', 'Model.Writer', 'Model.Corr'], timeout=900)
+        bl = ctx.parse_N_list(out) if rc == 0 else None
+        for b in bl or []:
+            k, w = cases[smap[b]]
+            probs = classify(results[smap[b]], w)
+            if all(c is not None for c, _ in probs) and probs:
+                continue            # the model reproduces a known class on this input
+            ctx.violation("model counterexample: Model/Writer.v writes a reference that is not defined exactly once for %s [%s]"
+                          % (labels[k], wopts_str(w)), dict(doc=docs[k], wopts=wopts_str(w), failed_files=res['failed'], broken_ties=broken))
+            found = True
+            break
+        if not found:
+            # numbers: boolean form of the error bound on the generated table
+            body = ("From Coq Require Import ZArith QArith List Bool.\nImport ListNotations.\n"
+                    "Definition cases : list (Z * Q) := [\n%s\n].\n"
+                    "Eval vm_compute in (bad_indices (fun c => chk_write_num (fst c) (snd c)) cases).\n"
+                    % ";\n".join("(%d%%Z, %s)" % (p, vlib.qstr(v)) for p, vals in ncases for v in vals))
+            rc, out = ctx.coq_eval('search_num', body, ['Gen.WriterNum', 'Model.WriteNum', 'Model.Corr'])
+            bl = ctx.parse_N_list(out) if rc == 0 else None
+            if bl:
+                flat = [(p, v) for p, vals in ncases for v in vals]
+                p, v = flat[bl[0]]
+                ctx.violation("model counterexample: write_num (source-derived constants) panics or misses the error bound for %r at precision %d" % (v, p),
+                              dict(doc='<svg %s width="10" height="10"><path d="M %r 1 L 2 3" stroke="black"/></svg>' % (NS, v),
+                                   wopts=wopts_str(dict(cp=p)), op='c07-write', failed_files=res['failed'], broken_ties=broken))
+                found = True
+        if not found:
+            ctx.violation("C07 proof obligations no longer check: %s %s" % (res['failed'] + res['audit'], [b['name'] for b in broken]),
+                          dict(failed_files=res['failed'], audit=res['audit'], broken_ties=broken, log_tail=res['log'][-3000:]),
+                          found_input=False)
+
+    ctx.add_sample(dict(op='c07-write', doc=gen_docs[0], wopts=wopts_str(cases[-1][1])))
+    ctx.add_sample(dict(op='c07-write', doc=labels[nwit + len(extra)], wopts=wopts_str(cases[2 * (nwit + len(extra))][1])))
+    ctx.add_sample(dict(op='write-num', doc=ndocs[0], precision=ncases[0][0]))
+    ctx.cov['rule'] = (
+        "every witness, every corpus file and generated reference-graph documents (tools/props/refgen.py), each written with "
+        "%d WriteOptions drawn from: id_prefix none / ascii / non-ASCII or XML- or url-special characters, preserve_text, quotes, "
+        "5 indent x 4 attribute-indent modes, coordinate and transform precisions sampled over 0..255 (always some > 12).  A case is "
+        "non-trivial when the written text contains at least one url(#..) or href=\"#..\" reference; distinct by (document, options).  "
+        "write-num: f32 coordinates (boundary values, uniform, dyadic, huge integers) x precisions; non-trivial when the value has a "
+        "fractional part." % per_doc)
+
+
+def replay(ctx, path):
+    r = json.load(open(path))
+    rp = r.get('replay', {})
+    print(json.dumps({k: v for k, v in r.items() if k != 'replay'}, indent=1))
+    print(json.dumps({k: (v if k != 'skeleton' else '...') for k, v in rp.items()}, indent=1)[:3000])
+    doc = rp.get('doc')
+    if doc:
+        binp, _ = ctx.harness('release')
+        if binp:
+            wo = rp.get('wopts', '-')
+            o = jload(ctx.rvh_batch(binp, 'c07-write', ["-\t%s\t%s" % (wo, doc)])[0])
+            print("now: %s" % json.dumps({k: v for k, v in o.items() if k not in ('dump', 'skeleton')})[:3000])
+            if 'dump' in o:
+                w = dict(prefix=None, pt='pt=1' in wo)
+                m = re.search(r"prefix=([0-9a-f]*)", wo)
+                if m:
+                    w['prefix'] = bytes.fromhex(m.group(1)).decode('utf-8', 'replace')
+                for cls, text in classify(o, w):
+                    print("oracle: [%s] %s" % (cls, text))
+    return 0
